@@ -94,8 +94,12 @@ impl Event {
         I: IntoIterator<Item = (Cow<'static, str>, Cow<'static, str>)>,
         F: FnOnce() -> I,
     {
-        let event = Event::new(name).with_properties(properties);
-        parent.add_event(event);
+        // The properties are only evaluated if the span is recording.
+        #[cfg(feature = "enable")]
+        if parent.inner.is_some() {
+            let event = Event::new(name).with_properties(properties);
+            parent.add_event(event);
+        }
     }
 
     /// Adds an event to the current local parent span with the given name and properties.
@@ -116,7 +120,16 @@ impl Event {
         I: IntoIterator<Item = (Cow<'static, str>, Cow<'static, str>)>,
         F: FnOnce() -> I,
     {
-        let event = Event::new(name).with_properties(properties);
-        LocalSpan::add_event(event);
+        // The properties are only evaluated if there is a local parent that is recording.
+        #[cfg(feature = "enable")]
+        {
+            let recording = crate::local::local_span_stack::LOCAL_SPAN_STACK
+                .try_with(|stack| stack.borrow_mut().is_sampled())
+                .unwrap_or(false);
+            if recording {
+                let event = Event::new(name).with_properties(properties);
+                LocalSpan::add_event(event);
+            }
+        }
     }
 }
